@@ -342,6 +342,19 @@ namespace vk {
 }
 }  // namespace vk
 
+namespace vk {
+[[noreturn]] void excluded_exit(const char* why) {
+  vk::Ctx& cx = vk::ctx();
+  if (g_replay_mode) { cx.discard = true; cx.discard_why = why; print_replay_report(true); fflush(stdout); _exit(0); }
+  g_stats.discarded++;
+  g_stats.discard_reasons[why]++;
+  g_stats.status = 0;
+  flush_stats();
+  fprintf(stderr, "excluded (%s): the process cannot continue, exit 77\n", why);
+  _exit(77);
+}
+}  // namespace vk
+
 extern "C" void vk_unifex_assert_fail(const char* expr, const char* file, int line) noexcept {
   const char* base = strrchr(file, '/');
   base = base ? base + 1 : file;
